@@ -628,6 +628,24 @@ func main() {
 		defStrs("defaultSkipDirs", skip)
 	}
 	{
+		// strconv.IsPrint above ASCII, as maximal intervals (behavioural extraction from the toolchain's stdlib):
+		// strconv.Quote writes printable runes as they are and everything else as an escape
+		var iv []string
+		lo, in := rune(0), false
+		for r := rune(0x80); r <= 0x110000; r++ {
+			p := r <= 0x10FFFF && strconv.IsPrint(r)
+			if p && !in {
+				lo = r
+			}
+			if !p && in {
+				iv = append(iv, fmt.Sprintf("(%d, %d)", lo, r-1))
+			}
+			in = p
+		}
+		fmt.Fprintf(&out, "def isPrintRanges : List (Nat × Nat) := [%s]\n", strings.Join(iv, ", "))
+		facts["isPrintRanges.count"] = len(iv)
+	}
+	{
 		// `goht generate`: extensions, skip prefixes, the suffix trimmed/added to pair outputs with templates,
 		// what a directory is compared by, and every call that mutates the file system
 		consts := map[string]string{}
